@@ -268,7 +268,13 @@ impl<T: Qcow2IoOps> Qcow2Dev<T> {
                 let buf = unsafe {
                     std::slice::from_raw_parts_mut(slice.as_mut_ptr(), slice.byte_size())
                 };
-                self.call_read(off, buf).await?;
+                if let Err(e) = self.call_read(off, buf).await {
+                    // not loaded, so the next user of this slice has to retry
+                    // instead of taking the empty slice as loaded
+                    slice.set_offset(None);
+                    cache.drop_from_wmap(&key);
+                    return Err(e);
+                }
                 log::trace!("add_cache_slice: load from disk");
             } else {
                 entry.set_dirty(true);
@@ -298,7 +304,14 @@ impl<T: Qcow2IoOps> Qcow2Dev<T> {
         {
             Some(to_kill) => {
                 log::warn!("add_rb_slice: cache eviction, slices {}", to_kill.len());
-                self.flush_cache_entries(to_kill).await
+                let res = self.flush_cache_entries(to_kill.clone()).await;
+
+                // the evicted dirty slices aren't written back, keep them in
+                // cache, so that the next flush can write them
+                if res.is_err() {
+                    self.refblock_cache.put_back(to_kill);
+                }
+                res
             }
             _ => Ok(()),
         }
